@@ -2,10 +2,14 @@ package main
 
 import (
 	"fmt"
+	"io"
+	"net/http"
+	"net/http/httptest"
 	"os"
 	"path/filepath"
 	"regexp"
 	"strings"
+	"sync/atomic"
 
 	"github.com/internetarchive/Zeno/internal/pkg/config"
 	"github.com/internetarchive/Zeno/internal/pkg/preprocessor"
@@ -96,15 +100,35 @@ func c05(args []string) error {
 	r := vh.Rand(5)
 	uniq := 0
 
+	nfile := 0
+	var exclBody atomic.Value
+	exclBody.Store("")
+	exclSrv := httptest.NewServer(http.HandlerFunc(func(w http.ResponseWriter, _ *http.Request) {
+		w.Header().Set("Content-Type", "text/plain")
+		io.WriteString(w, exclBody.Load().(string))
+	}))
+	defer exclSrv.Close()
 	apply := func(c c05cfg) {
 		cfg.IncludeHosts, cfg.IncludeString = c.IncH, c.IncS
 		cfg.ExcludeHosts, cfg.ExcludeString = append([]string{}, c.ExH...), c.ExS
 		cfg.ExclusionRegexes = nil
 		cfg.ExclusionFile = nil
 		if len(c.ExR) > 0 {
+			// the file as operators write it: LF or CRLF line ends, with or without a final line end, read from disk or
+			// over HTTP
+			nfile++
+			eol := []string{"\n", "\r\n"}[nfile%2]
+			body := strings.Join(c.ExR, eol)
+			if (nfile/2)%2 == 0 {
+				body += eol
+			}
 			f := filepath.Join(dir, "excl.txt")
-			os.WriteFile(f, []byte(strings.Join(c.ExR, "\n")+"\n"), 0644)
+			os.WriteFile(f, []byte(body), 0644)
 			cfg.ExclusionFile = []string{f}
+			if (nfile/4)%3 == 2 {
+				exclBody.Store(body)
+				cfg.ExclusionFile = []string{exclSrv.URL + "/excl.txt"}
+			}
 		}
 		if err := config.GenerateCrawlConfig(); err != nil { // appends the default excluded hosts, compiles the regexes
 			panic(err)
@@ -209,7 +233,8 @@ func c05(args []string) error {
 			run("scheme", pos, t, none)
 		}
 		for _, t := range []string{"http://localhost/UNIQ/x.png", "http://localhost:8080/UNIQ", "http://127.0.0.1/UNIQ/x.png", "https://127.0.0.1:8443/UNIQ",
-			"http://intranet/UNIQ/x.png", "http://printer:631/UNIQ", "//localhost/UNIQ/y.js", "//intranet/UNIQ/y.js", "http://LOCALHOST/UNIQ"} {
+			"http://intranet/UNIQ/x.png", "http://printer:631/UNIQ", "//localhost/UNIQ/y.js", "//intranet/UNIQ/y.js", "http://LOCALHOST/UNIQ",
+			"http://[2001:db8::1]/UNIQ/x.png", "http://[::1]:8080/UNIQ", "https://[fe80::1]/UNIQ.js", "//[2001:db8::2]:81/UNIQ"} {
 			run("host", pos, t, none)
 		}
 		for _, t := range []string{"http://web.archive.org/web/UNIQ/x", "https://archive.org/details/UNIQ", "http://wayback.archive-it.org/UNIQ/x", "//archive.org/UNIQ.png",
@@ -247,7 +272,7 @@ func c05(args []string) error {
 		}
 	}
 	// --- random combinations
-	hosts := []string{"www.site.example", "cdn.site.example", "blocked.example", "other.example", "localhost", "127.0.0.1", "intranet", "web.archive.org", "ads.site.example", "bücher.example", "www.site.example:8080", "u:p@www.site.example"}
+	hosts := []string{"www.site.example", "cdn.site.example", "blocked.example", "other.example", "localhost", "127.0.0.1", "intranet", "web.archive.org", "ads.site.example", "bücher.example", "www.site.example:8080", "u:p@www.site.example", "[2001:db8::1]", "[::1]:8080"}
 	pathsq := []string{"/UNIQ/a.png", "/private/UNIQ", "/UNIQ/logout", "/UNIQ?sessionid=2", "/UNIQ/keepme.js", "/UNIQ/x.exe", "/calendar/9UNIQ", "/", "", "/UNIQ/%6cogout", "/UNIQ/a b.png", "/UNIQ/'q'.png"}
 	schemes := []string{"http://", "https://", "//", "ftp://", "", "HTTP://"}
 	pick := func(l []string, p int) []string {
